@@ -4,7 +4,7 @@
    cs over every segmentation. *)
 From Coq Require Import List Arith NArith Bool Lia.
 Import ListNotations.
-Require Import FV.Gen.C07 FV.C07.Model FV.C07.Lemmas FV.C07.Utf8 FV.C07.Wellformed FV.C07.Refuted.
+Require Import FV.Gen.C07 FV.C07.Model FV.C07.Lemmas FV.C07.Utf8 FV.C07.Wellformed FV.C07.Codec FV.C07.Refuted.
 Local Open Scope N_scope.
 
 (* obligations on the facts regenerated from /repo (Gen/C07.v) *)
@@ -89,6 +89,22 @@ Theorem C07_lines_wellformed : forall E evs, env_ok E -> Forall ev_ok evs ->
   Forall frame_ok (out (serve E evs)).
 Proof. intros E evs HE Hev; apply (serve_wellformed E HE); exact Hev. Qed.
 
+(* encoding and decoding of message triples are mutually inverse: for a triple whose action and specifier are tokens
+   (non-empty, encodable, no white space) and whose data text is encodable with clean ends (what json.dumps produces),
+   decode_msg of the encoded frame body gives the triple back - the data part up to the json oracle (json.loads of the
+   dumped text; JSON null reads as no data).  encode_frame m = encode_body m ++ [EOL]. *)
+Theorem C07_codec_inverse : forall E a s d, tokb a = true -> wf_spec s -> wf_data d ->
+  (encode_frame (a, s, d) = encode_body (a, s, d) ++ [EOL]) /\
+  (decode_msg E (encode_body (a, s, d)) =
+   match d with
+   | None => Some (a, s, None)
+   | Some t => match e_json E t with
+               | Some c => Some (a, s, if str_eqb c json_null then None else Some c)
+               | None => None
+               end
+   end).
+Proof. intros; split; [apply encode_frame_body|apply codec_inverse; assumption]. Qed.
+
 (* nothing leaks into another connection: in a server with several connections the state of connection k
    (buffer, frames sent) is the one it reaches from its own events alone *)
 Theorem C07_isolation : forall Es evs S k d, (k < length S)%nat ->
@@ -115,6 +131,7 @@ Print Assumptions C07_one_reply_per_line.
 Print Assumptions C07_decoded_request_fields.
 Print Assumptions C07_never_terminates.
 Print Assumptions C07_isolation.
+Print Assumptions C07_codec_inverse.
 Print Assumptions C07_lines_wellformed.
 Print Assumptions C07_refuted_leading_blank.
 Print Assumptions C07_refuted_latin1_echo.
